@@ -834,11 +834,13 @@ func concCase(c Val) Val {
 		leakSeen = true
 	}
 	cn, _, k, g := w.resources()
-	live := int64(0)
+	live := int64(0) // distinct live streams among the answers (a late requester may have been given the registered one)
+	seen := map[*media.Stream]bool{}
 	for _, s := range got {
-		if s != nil && media.VerifStatus(s) == media.StreamOK {
+		if s != nil && !seen[s] && media.VerifStatus(s) == media.StreamOK {
 			live++
 		}
+		seen[s] = true
 	}
 	sc, _ := media.Count()
 	member := int64(0)
